@@ -1,5 +1,6 @@
 import Cellml.Props.C14
 import Cellml.Tie.Transpile
+import Cellml.Tie.NumPipe
 
 set_option linter.unusedSimpArgs false
 set_option linter.unusedVariables false
@@ -21,9 +22,13 @@ set_option linter.unusedVariables false
                                  `float(q.evalf(FLOAT_PRECISION))`; the hypothesis `b < 2^64` of the original is PROVED
                                  from "the generated handler returned `b`" (`genCn_lt`).
 
-    No tie used here carries a domain hypothesis. Not generated (model only, as before): the stages after the parser —
-    `initial_value` (`float(initial_value)` in model.py), `Quantity._value`, `get_value`, `evalf` (`strippedValue`); the
-    constant `FLOAT_PRECISION` is the generated `Cellml.Gen.floatPrecision`. -/
+    No tie used here carries a domain hypothesis. Sections 2-5 (second wave) have generated code for the FIRST stage only.
+    Section 6 (`Tie/NumPipe.lean`) composes the generated definitions of ALL stages in the order the code runs them —
+    `_cn_handler` / `Variable.__init__` + `transform_constants`, `create_quantity` (`Quantity.__new__`, `__init__`),
+    `Quantity.__float__`, `_get_value`, `graph_with_sympy_numbers` (`_eval_evalf` at the generated `FLOAT_PRECISION`),
+    `_print_Float` / `_print_float` — into `genObserve`, proves `genObserve = C14.pipeline` for EVERY source and every
+    reading of the leaves without a model (`genObserve_eq`), and restates `pipeline_id_partial`, `widen_narrow_id`,
+    `enotation_single`, `generated_code_bits` over it (`…_whole`). -/
 
 namespace Cellml.Props.C14Gen
 open _root_.C14 Cellml.Tie Cellml.Tie.PTranspile Cellml.Gen
@@ -202,5 +207,203 @@ theorem genCn_lt (n : CnNode) (b : Nat) (h : genCn n = .ok b) : b < 2 ^ 64 := by
 theorem widen_narrow_id_gen (n : CnNode) (b : Nat) (h : genCn n = .ok b) (hfin : isFiniteBits b = true)
     (hnz : magOf b ≠ 0) : strippedValue b = b :=
   Cellml.Props.C14.widen_narrow_id b (genCn_lt n b h) hfin hnz
+
+/-! ## 6. the WHOLE pipeline, every stage by generated code -/
+
+section Whole
+open Cellml.Tie.PNumPipe Cellml.Gen.NumPipe
+
+/-- **loading**: the model after a document whose only number is the literal `s` has been loaded, every step that
+    touches the number by generated code.
+    * `initial_value="t"`: `Variable.__init__` (its `float(initial_value)`), then `transform_constants`
+      (`create_quantity(var.initial_value, var.units)`, the equation `x = q`);
+    * `<cn>`: `_cn_handler` (`genCn`), then the parser's number generator `create_quantity(number, get_unit(units))`;
+      `add_equation(Eq(x, q))` records the definition (leaf).
+    `u` is the Unit object of the literal, `v` any reading of the model-less leaves. -/
+def genLoad (v : PView) (u : String) (s : Source) : Except PyErr NModel :=
+  match s with
+  | .initial t =>
+    (variableInit { id := 0 } (some "x") (some (.unit u)) none (some (.str (String.ofList t))) none none (some 0)
+      none).bind fun x => transformConstants v { vars := [x] }
+  | s =>
+    (match cnNodeOf s with
+      | some n => genCn n
+      | none => .error ⟨"unreachable"⟩).bind fun b =>
+    (createQuantity v (.flt b) (.unit u)).bind fun q =>
+    .ok { vars := [{ id := 0 }], defs := [(0, ⟨0, [.qty q]⟩)] }
+
+/-- `Model.graph` (leaf; tied for C09): one node per defining equation -/
+def graphOf (m : NModel) : NGraph := ⟨m.defs.map fun p => (p.1, some ⟨p.1, p.2⟩), []⟩
+
+/-- **observing** variable 0 of a loaded model, in the order the code runs: `float(quantity)` (generated
+    `Quantity.__float__`), `get_value` (generated `get_value` / `_get_value` / `expand_derivatives`),
+    the unit-stripped equation (generated `graph_with_sympy_numbers`: `_eval_evalf` at the generated `FLOAT_PRECISION`)
+    read back with `float()` as the generated `_print_Float` does -/
+def genObserveModel (m : NModel) : Except PyErr Observed :=
+  (varDefItem m 0).bind fun rhs =>
+  (floatExpr quantityFloat rhs).bind fun quantity =>
+  (NumPipe.getValue m (getValueRec m (expandDerivatives m .ok) fun _ _ => .error ⟨"outside: recursive call"⟩) 0).bind
+    fun gv =>
+  (graphWithSympyNumbers { m with graph := .ok (graphOf m) } none).bind fun gc =>
+  (nodeEquation gc.1 0).bind fun eq =>
+  (floatExpr quantityFloat (theEq eq).rhs).bind fun stripped =>
+  .ok { quantity := quantity, getValue := gv, stripped := stripped }
+
+/-- the composed generated pipeline -/
+def genObserve (v : PView) (u : String) (s : Source) : Except PyErr Observed :=
+  (genLoad v u s).bind genObserveModel
+
+/-- a model whose variable 0 is defined by a Quantity holding the double `b` is observed as the model stages say -/
+theorem genObserveModel_eq (m : NModel) (q : QObj) (b : Nat) (hd : m.defs = [(0, ⟨0, [.qty q]⟩)]) (ho : m.odes = [])
+    (hq : q._value = some (.flt b)) :
+    genObserveModel m = .ok { quantity := quantityValue b, getValue := C14.getValue (quantityValue b),
+                              stripped := strippedValue (quantityValue b) } := by
+  have hvd : varDefItem m 0 = .ok ⟨0, [.qty q]⟩ := by simp [varDefItem, hd]
+  have hok : (0 : Nat) ∉ odeKeys m := by simp [odeKeys, ho]
+  have hgv := (getValue_tie m .ok (fun _ _ => .error ⟨"outside: recursive call"⟩) 0 b).2 q hok hvd hq
+  obtain ⟨sn, hgn, _, hfl⟩ := graphNum_single { m with graph := .ok (graphOf m) } 0 q b
+    (by simp [graphOf, hd, graph1]) hq
+  unfold genObserveModel
+  rw [hvd]
+  simp only [Except.bind, floatExpr, quantityFloat_tie q b hq, hgv, hgn, nodeEquation, List.find?_cons,
+    beq_self_eq_true, theEq, Option.getD_some, hfl]
+
+theorem genLoad_eq (v : PView) (u : String) (s : Source) :
+    (∀ b, sourceBits s = some b → ∃ m q, genLoad v u s = .ok m ∧ m.defs = [(0, ⟨0, [.qty q]⟩)] ∧ m.odes = [] ∧
+      q._value = some (.flt b)) ∧
+    (sourceBits s = none → genLoad v u s = .error ⟨"ValueError"⟩) := by
+  cases s with
+  | initial t =>
+    constructor
+    · intro b hb
+      have hb' : initialValue t = some b := hb
+      simp only [genLoad]
+      rw [variableInit_tie]
+      simp only [pyFloat, String.toList_ofList]
+      have : decToBitsL t = some b := hb'
+      simp only [this, Except.bind, someFlt]
+      exact transformConstants_single v _ b u rfl rfl
+    · intro hb
+      have : decToBitsL t = none := hb
+      simp only [genLoad]
+      rw [variableInit_tie]
+      simp only [pyFloat, String.toList_ofList, this, Except.bind]
+  | plain t =>
+    constructor
+    · intro b hb
+      unfold genLoad
+      simp only [cnNodeOf, genCn, cn_sourceBits_tie (.plain t) _ rfl, hb, optToExcept, Except.bind]
+      obtain ⟨q, hq⟩ := createQuantity_unit_ok v (.flt b) u
+      rw [hq]
+      exact ⟨_, q, rfl, rfl, rfl, createQuantity_value _ _ _ _ hq⟩
+    · intro hb
+      unfold genLoad
+      simp only [cnNodeOf, genCn, cn_sourceBits_tie (.plain t) _ rfl, hb, optToExcept, Except.bind]
+  | enotation mt e =>
+    constructor
+    · intro b hb
+      unfold genLoad
+      simp only [cnNodeOf, genCn, cn_sourceBits_tie (.enotation mt e) _ rfl, hb, optToExcept, Except.bind]
+      obtain ⟨q, hq⟩ := createQuantity_unit_ok v (.flt b) u
+      rw [hq]
+      exact ⟨_, q, rfl, rfl, rfl, createQuantity_value _ _ _ _ hq⟩
+    · intro hb
+      unfold genLoad
+      simp only [cnNodeOf, genCn, cn_sourceBits_tie (.enotation mt e) _ rfl, hb, optToExcept, Except.bind]
+
+/-- **the generated stages, composed in the order the code runs them, ARE `C14.pipeline`** — for every way of writing a
+    number (also texts that are no number: ValueError), every Unit, every reading of `'{:g}'`, `repr`, the Dummy counter
+    and the unit look-up. No domain hypothesis. -/
+theorem genObserve_eq (v : PView) (u : String) (s : Source) :
+    genObserve v u s = optToExcept "ValueError" (pipeline s) := by
+  unfold genObserve pipeline
+  cases hb : sourceBits s with
+  | none => rw [(genLoad_eq v u s).2 hb]; rfl
+  | some b =>
+    obtain ⟨m, q, hm, hd, ho, hq⟩ := (genLoad_eq v u s).1 b hb
+    rw [hm]
+    simp only [Except.bind, genObserveModel_eq m q b hd ho hq, Option.map_some, optToExcept, quantityValue]
+
+/-- **pipeline_id_partial (whole generated pipeline; `_partial` as the original: every literal except those whose
+    nearest double is `-0.0`).** If the generated pipeline observes anything of a literal whose nearest double `b` is
+    finite and not the negative zero, then `float(quantity)`, `get_value` and the unit-stripped equation all hold `b`. -/
+theorem pipeline_id_partial_whole (v : PView) (u : String) (s : Source) (b : Nat) (h : sourceBits s = some b)
+    (hfin : isFiniteBits b = true) (hnz : b ≠ signBit) :
+    genObserve v u s = .ok { quantity := b, getValue := b, stripped := b } := by
+  rw [genObserve_eq, Cellml.Props.C14.pipeline_id_partial s b h hfin hnz]; rfl
+
+/-- the same with the hypothesis on the generated code only: whatever the generated pipeline returns for a literal is
+    three times the same finite double, unless that double is `-0.0` -/
+theorem pipeline_id_partial_whole' (v : PView) (u : String) (s : Source) (o : Observed)
+    (h : genObserve v u s = .ok o) (hfin : isFiniteBits o.quantity = true) (hnz : o.quantity ≠ signBit) :
+    o.getValue = o.quantity ∧ o.stripped = o.quantity := by
+  rw [genObserve_eq] at h
+  cases hb : sourceBits s with
+  | none => simp [pipeline, hb, optToExcept] at h
+  | some b =>
+    have hq := Cellml.Props.C14.pipeline_quantity_id s b hb
+    obtain ⟨o', ho', hq1, hq2⟩ := hq
+    rw [ho'] at h
+    simp only [optToExcept, Except.ok.injEq] at h
+    subst h
+    rw [hq1] at hfin hnz
+    have := Cellml.Props.C14.pipeline_id_partial s b hb hfin hnz
+    rw [ho'] at this
+    simp only [Option.some.injEq] at this
+    subst this
+    exact ⟨rfl, rfl⟩
+
+/-- the excluded case is real on the whole generated pipeline (known finding `negative-zero-sign-lost`) -/
+theorem pipeline_negzero_sign_lost_whole (v : PView) (u : String) :
+    genObserve v u (.plain "-0.0".toList) = .ok { quantity := signBit, getValue := signBit, stripped := 0 } := by
+  rw [genObserve_eq, Cellml.Props.C14.pipeline_negzero_sign_lost.2]; rfl
+
+/-- **widen_narrow_id (whole generated pipeline).** The stage `float(q.evalf(FLOAT_PRECISION))` as the generated code
+    runs it — `create_quantity` makes `q` from a double `b`, `graph_with_sympy_numbers` calls `evalf` on it with the
+    generated `FLOAT_PRECISION`, which calls the generated `_eval_evalf`, `_print_Float` takes `float()` — returns `b`,
+    bit for bit, for every finite non-zero double. -/
+theorem widen_narrow_id_whole (v : PView) (u : UArg) (b : Nat) (hb : b < 2 ^ 64) (hfin : isFiniteBits b = true)
+    (hnz : magOf b ≠ 0) (q : QObj) (hq : createQuantity v (.flt b) u = .ok q) :
+    ∃ s, sympyEvalf (quantityEvalEvalf q) Cellml.Gen.floatPrecision = .ok s ∧ floatOfSNum s = b ∧
+      printFloatS v s = .ok (v.reprF b) := by
+  obtain ⟨s, hs, hfl⟩ := stripped_tie q b (createQuantity_value _ _ _ _ hq)
+  have : floatOfSNum s = b := by
+    rw [hfl]; exact Cellml.Props.C14.widen_narrow_id b hb hfin hnz
+  exact ⟨s, hs, this, by rw [printFloatS_tie, this]⟩
+
+/-- **enotation_single (whole generated pipeline).** For `m<sep/>e` the Quantity, `get_value` and the stripped equation
+    all hold ONE rounding of `mantissa × 10^z` (when it is finite and not `-0.0`). -/
+theorem enotation_single_whole (v : PView) (u : String) (m : Mantissa) (mant expo : List Char) (z : Int)
+    (hm : strip mant = m.chars) (he : parseIntL expo = some z)
+    (hfin : isFiniteBits (withSign m.sign.neg (decMag m.digits (z - (m.fp.length : Int)))) = true)
+    (hnz : withSign m.sign.neg (decMag m.digits (z - (m.fp.length : Int))) ≠ signBit) :
+    let b := withSign m.sign.neg (decMag m.digits (z - (m.fp.length : Int)))
+    genObserve v u (.enotation mant expo) = .ok { quantity := b, getValue := b, stripped := b } := by
+  intro b
+  exact pipeline_id_partial_whole v u _ b (Cellml.Props.C14.enotation_single m mant expo z hm he) hfin hnz
+
+/-- **generated_code_bits (whole generated pipeline).** The text the generated printer (`_print_Float` →
+    `_print_float`) emits for the stripped number of a literal denotes the double of the source text, for every reading
+    of `str(float)` that `float()` reads back (`ReprOK`; `repr` is one). -/
+theorem generated_code_bits_whole (v : PView) (hv : ReprOK v) (u : String) (s : Source) (b : Nat)
+    (h : sourceBits s = some b) (hfin : isFiniteBits b = true) (hnz : b ≠ signBit) :
+    ∃ o text, genObserve v u s = .ok o ∧ printFloat v o.stripped = .ok text ∧
+      decToBitsL text.toList = sourceBits s := by
+  refine ⟨_, v.reprF b, pipeline_id_partial_whole v u s b h hfin hnz, rfl, ?_⟩
+  rw [h]
+  exact hv b hfin (Cellml.Props.C14.sourceBits_lt s b h)
+
+/-- non-vacuity of `ReprOK` is a fact about CPython's `repr` (the leaf); of the rest: `<cn> 0.1 </cn>` -/
+example (v : PView) : genObserve v "mV" (.plain " 0.1 ".toList)
+    = .ok { quantity := 0x3FB999999999999A, getValue := 0x3FB999999999999A, stripped := 0x3FB999999999999A } := by
+  rw [genObserve_eq]; decide +kernel
+
+example (v : PView) : genObserve v "mV" (.initial "4.9e-324".toList) = .ok { quantity := 1, getValue := 1, stripped := 1 } := by
+  rw [genObserve_eq]; decide +kernel
+
+example (v : PView) : genObserve v "mV" (.plain "1e".toList) = .error ⟨"ValueError"⟩ := by
+  rw [genObserve_eq]; decide +kernel
+
+end Whole
 
 end Cellml.Props.C14Gen
